@@ -587,6 +587,14 @@ impl Connect {
             return Err(MqttError::MalformedPacket);
         }
         let connect_flags = data[cursor];
+        // Reserved bit 0 must be 0, Will QoS must be 0..=2, and Will QoS / Will Retain
+        // require the Will Flag
+        if (connect_flags & 0b0000_0001) != 0
+            || (connect_flags >> 3) & 0x03 == 3
+            || ((connect_flags & 0b0000_0100) == 0 && (connect_flags & 0b0011_1000) != 0)
+        {
+            return Err(MqttError::MalformedPacket);
+        }
         let connect_flags_buf = [connect_flags];
         cursor += 1;
 
